@@ -49,7 +49,7 @@ Definition scK (s : st) (e : ev) : Prop :=
 Definition scP (s : st) (g : ghost) (e : ev) : Prop :=
   match e with
   | EMark k => mem (fst k) (dfiles s) = true
-  | EBuf k => In k (dirty s)
+  | EBuf k => mem (fst k) (dfiles s) = true
   | ESync => dirty s = [] /\ buf s = []
   | EMsync f => buf s = [] /\ pendf s = [] /\ (forall k, In k (dirty s) -> fst k <> f)
   | ERotate => buf s = [] /\ pendf s = []
@@ -218,7 +218,7 @@ Proof.
     + intros k' [H | H].
       * apply In_del_key in H. apply P5. left. tauto.
       * rewrite app_assoc in H. apply in_map_fst_app in H. destruct H as [H | H]; [apply P5; auto |].
-        cbn in H. destruct H as [<- | []]. apply P5. auto.
+        cbn in H. destruct H as [<- | []]. exact SP.
   - (* EFlush *)
     assert (PE : skipn (length (cur_du s)) (cur_fl s ++ buf s) = skipn (length (cur_du s)) (cur_fl s) ++ buf s).
     { rewrite W2 at 1. rewrite <- app_assoc. rewrite pendf_app. reflexivity. }
